@@ -96,6 +96,7 @@ type scriptPD struct {
 	assignAtEntry bool            // gated calls receive their value when they arrive (else at release)
 	pend          []*pending
 	calls         int
+	ext           uint64 // external timestamp cell (pass-through)
 	ctxAborts     int // gated requests abandoned because the caller's context was done
 	exhausted     int
 }
@@ -157,6 +158,30 @@ func (c *scriptPD) GetTS(ctx context.Context) (int64, int64, error) {
 		return 0, 0, errPD
 	}
 	return pc.r.p, pc.r.l, nil
+}
+// pass-throughs: GetMinTS answers from the queue like GetTS; the external timestamp is a plain cell
+func (c *scriptPD) GetMinTS(ctx context.Context) (int64, int64, error) {
+	c.mu.Lock()
+	defer c.mu.Unlock()
+	r := c.nextLocked()
+	if r.err {
+		return 0, 0, errPD
+	}
+	return r.p, r.l, nil
+}
+func (c *scriptPD) SetExternalTimestamp(ctx context.Context, ts uint64) error {
+	c.mu.Lock()
+	defer c.mu.Unlock()
+	if ts == 0 {
+		return errPD
+	}
+	c.ext = ts
+	return nil
+}
+func (c *scriptPD) GetExternalTimestamp(ctx context.Context) (uint64, error) {
+	c.mu.Lock()
+	defer c.mu.Unlock()
+	return c.ext, nil
 }
 func (c *scriptPD) npending() int { c.mu.Lock(); defer c.mu.Unlock(); return len(c.pend) }
 func (c *scriptPD) release(fail bool) bool {
@@ -372,6 +397,20 @@ func execSeq(f []string) {
 			}
 		}
 		emit("seq", "S", f[2], f[3], f[4], "=>", r, strconv.Itoa(sc.pdc.calls-before), i(slack), tsres(lrBefore, lrErr))
+	case "M": // pd — GetAllTSOKeyspaceGroupMinTS is a pass-through of PD's GetMinTS
+		if sc.o == nil {
+			return
+		}
+		sc.pdc.queue = []pdres{parsePD(f[2])}
+		ts, err := sc.o.GetAllTSOKeyspaceGroupMinTS(ctx)
+		emit("seq", "M", f[2], "=>", tsres(ts, err))
+	case "E": // ts — SetExternalTimestamp / GetExternalTimestamp are pass-throughs
+		if sc.o == nil {
+			return
+		}
+		err := sc.o.SetExternalTimestamp(ctx, pu(f[2]))
+		g, gerr := sc.o.GetExternalTimestamp(ctx)
+		emit("seq", "E", f[2], "=>", b01(err == nil), tsres(g, gerr))
 	case "I": // ns
 		if sc.o == nil {
 			return
@@ -966,6 +1005,97 @@ func execMo(f []string) {
 		}
 	}
 	pline("mock_expiry_consistent", cons, f[1])
+	// local / mock oracle under concurrency: real-time order of returns (a call that returned before another was
+	// invoked returned a smaller ts), all values distinct; external timestamp never decreases, never beyond the oracle
+	for name, mk := range map[string]func() oracle.Oracle{"local": oracles.NewLocalOracle, "mock": func() oracle.Oracle { return &oracles.MockOracle{} }} {
+		oc := mk()
+		var clk atomic.Int64
+		var mu sync.Mutex
+		var recs []rec
+		var wg sync.WaitGroup
+		var extBad atomic.Value
+		stop := make(chan struct{})
+		var rwg sync.WaitGroup
+		rwg.Add(1)
+		go func() {
+			defer rwg.Done()
+			var prev uint64
+			for {
+				e, _ := oc.GetExternalTimestamp(context.Background())
+				if e < prev {
+					extBad.Store(fmt.Sprintf("external ts %x after %x", e, prev))
+				}
+				prev = e
+				select {
+				case <-stop:
+					return
+				default:
+					runtime.Gosched()
+				}
+			}
+		}()
+		for g := 0; g < 6; g++ {
+			wg.Add(1)
+			go func(g int) {
+				defer wg.Done()
+				var mine []rec
+				for k := 0; k < n; k++ {
+					inv := clk.Add(1)
+					var ts uint64
+					var err error
+					switch k % 3 {
+					case 0:
+						ts, err = oc.GetTimestamp(context.Background(), &oracle.Option{})
+					case 1:
+						ts, err = oc.GetTimestampAsync(context.Background(), &oracle.Option{}).Wait()
+					default:
+						ts, err = oc.GetLowResolutionTimestamp(context.Background(), &oracle.Option{})
+					}
+					ret := clk.Add(1)
+					if err == nil {
+						mine = append(mine, rec{inv, ret, ts})
+					}
+					if k%11 == 0 {
+						// an external ts taken from an earlier result is accepted or refused as "cannot decrease"; a future one is refused
+						if e := oc.SetExternalTimestamp(context.Background(), ts+uint64(1)<<40); e == nil {
+							extBad.Store(fmt.Sprintf("external ts beyond the oracle accepted: %x", ts+uint64(1)<<40))
+						}
+						_ = oc.SetExternalTimestamp(context.Background(), ts)
+					}
+				}
+				mu.Lock()
+				recs = append(recs, mine...)
+				mu.Unlock()
+			}(g)
+		}
+		wg.Wait()
+		close(stop)
+		rwg.Wait()
+		sort.Slice(recs, func(a, b int) bool { return recs[a].inv < recs[b].inv })
+		byRet := append([]rec(nil), recs...)
+		sort.Slice(byRet, func(a, b int) bool { return byRet[a].ret < byRet[b].ret })
+		var maxRet uint64
+		j, okRT, detail := 0, true, ""
+		seen := map[uint64]bool{}
+		for _, b := range recs {
+			for j < len(byRet) && byRet[j].ret < b.inv {
+				if byRet[j].ts > maxRet {
+					maxRet = byRet[j].ts
+				}
+				j++
+			}
+			if j > 0 && maxRet >= b.ts && okRT {
+				okRT, detail = false, fmt.Sprintf("a call returning %x completed before the invocation of a call returning %x", maxRet, b.ts)
+			}
+			if seen[b.ts] && okRT {
+				okRT, detail = false, fmt.Sprintf("timestamp %x returned twice", b.ts)
+			}
+			seen[b.ts] = true
+		}
+		pline(name+"_realtime_strict_concurrent", okRT, f[1], strconv.Itoa(len(recs)), detail)
+		eb, _ := extBad.Load().(string)
+		pline(name+"_external_ts_monotone", eb == "", f[1], eb)
+	}
 }
 
 // ---------------------------------------------------------------- class iv: interval record; class sl: stale ts
